@@ -1,11 +1,9 @@
 def DOMLOOPS(n):
     """sibling walks of the real DOM helpers: <= n-1 children per element (checked by the unwinding assertions)"""
-    return {r'^_ZN5QXmpp7Private17firstChildElementERK11QDomElement11QStringView': n, r'^_ZN5QXmpp7Private18nextSiblingElementERK11QDomElement11QStringView': n}
+    return {r'^_ZN5QXmpp7Private17firstChildElementERK11QDomElement11QStringView': n, r'^_ZN5QXmpp7Private18nextSiblingElementERK11QDomElement11QStringView': n,
+            r'^_ZN7C02Node4make': 34, r'c02BuildShape': 12}   # harness loops: attributes of the vocabulary, nodes of a shape
 def I(name, entry=None, dom=8, **kw):
     d = dict(loop_bounds=DOMLOOPS(dom), name=name, entry=entry or 'h_' + name, unwind=10, timeout_s=300, mem_gb=4, safety_is_property=True, object_bits=12, cdefs={'VP_UTF8_LATIN1': 1}, bound='arbitrary bounded tree over the vocabulary of the parser under test (SPEC bounds)'); d.update(kw); return d
-def DOMLOOPS(n):
-    """sibling walks of the real DOM helpers: <= n-1 children per element (checked by the unwinding assertions)"""
-    return {r'^_ZN5QXmpp7Private17firstChildElementERK11QDomElement11QStringView': n, r'^_ZN5QXmpp7Private18nextSiblingElementERK11QDomElement11QStringView': n}
 SM_TUS = ['src/base/QXmppStreamManagement.cpp', 'src/base/QXmppUtils.cpp', 'src/base/QXmppStanza.cpp']
 SASL_TUS = ['src/base/QXmppSasl.cpp', 'src/base/QXmppStreamManagement.cpp', 'src/base/QXmppUtils.cpp', 'src/base/QXmppStanza.cpp']
 # instance -> bound of the sibling walks (max children of the input tree and of the serialized tree + 2)
@@ -59,9 +57,16 @@ IQ_CASES = (IQI('iqa_', 'h_iqa', {k: IQA_VALID_SHAPES[k] for k in ['addresses_va
             + IQI('bindiqa_', 'h_bindiqa', dict(bind_addresses_valid=iqcase(2, (A_BIND, AN_BIND), (A_ADDRESSES, AN_NONE, (A_ADDRESS, AN_NONE))) | (1 << 29)), **TH) + IQI('iqx_', 'h_iq_extcount', {'error_cond': IQ_ERR_SHAPES['error_cond']}, timeout_s=500, mem_gb=6, **IQX_KW) + IQI('iqx_', 'h_iq_extcount', {'ext_error': IQ_ERR_SHAPES['ext_error']}, tiers=('manual',)) + IQI('iq_', 'h_iq', {k: v for k, v in IQ_SHAPES.items() if k not in ('bind_dup', 'two_ext')}) + IQI('iq_', 'h_iq', {k: IQ_SHAPES[k] for k in ('bind_dup', 'two_ext')}, tiers=('thorough',)) + IQI('iq_', 'h_iq', IQ_ERR_SHAPES, tiers=('manual',))
             + IQI('bindiq_', 'h_bind_iq', dict(jid=iqcase(1, (T_BIND, N_BIND, (T_JID, N_NONE))))) + IQI('bindiq_', 'h_bind_iq', dict(bind_ext=iqcase(2, (T_BIND, N_BIND), (T_ZZ, N_CLIENT, (T_BIND, N_BIND)))), tiers=('thorough',))
             + IQI('pingiq_', 'h_ping_iq', dict(ping=iqcase(1, (T_PING, N_PING)))) + IQI('pingiq_', 'h_ping_iq', dict(ping_ext=iqcase(2, (T_PING, N_PING, (T_ZZ, N_NONE)), (T_BIND, N_BIND))), tiers=('thorough',)))
+PRES_TUS = ['src/base/QXmppPresence.cpp', 'src/base/QXmppStanza.cpp', 'src/base/QXmppMucIq.cpp', 'src/base/QXmppIq.cpp', 'src/base/QXmppUtils.cpp']
+PRES_SHAPES = ['empty', 'basic', 'basic_dup', 'muc', 'mucuser', 'mucuser_dup', 'caps', 'caps_valid', 'vcard', 'vcard_nophoto', 'moved_idle_mix', 'addresses', 'addresses_foreign', 'error', 'ext', 'lang']
+def PRES(prefix, entry, names, **kw):
+    kw.setdefault('mem_gb', 6); kw.setdefault('timeout_s', 400)
+    return [I(prefix + n, entry=entry, dom=10, cdefs={'VP_UTF8_LATIN1': 1, 'VP_CASE': PRES_SHAPES.index(n), 'DOM_MAXATTR': 32, 'DOM_MAXCH': 10}, bound='shape %s; root namespace, attribute presence/values and text symbolic' % n, **kw) for n in names]
 SPEC = dict(
     property='C02',
     groups=[
+        dict(name='presence', harness='h_presence.cpp', tus=PRES_TUS, models=MODELS,
+             instances=PRES('pres_', 'h_presence_fix', PRES_SHAPES) + PRES('press_', 'h_presence_safe', PRES_SHAPES)),
         dict(name='stanza', harness='h_stanza.cpp', tus=STANZA_TUS, models=MODELS,
              instances=[I('error', dom=6, timeout_s=600, mem_gb=8, tiers=('thorough',)), I('error_safe', dom=6, mem_gb=6)] + IQ_CASES),
         dict(name='sasl', harness='h_sasl.cpp', tus=SASL_TUS, models=MODELS, 
